@@ -590,23 +590,40 @@ class ElemEngine:
         vals = [s.value for s in f.stores() if s.target == t]
         if not vals:
             return top('local without defs ' + show(t))
-        out = frozenset()
-        self_ref = False
+        avs = []
         for v in vals:
             key = (env.key(), ('localdef', t, v))
             if key in self._stack:
-                self_ref = True
                 continue
             self._stack.append(key)
             try:
                 av = self.ev(env, v)
             finally:
                 self._stack.pop()
-            if is_tuple(av):
-                return av
-            out |= av
-        # accumulators: x = x op e  ->  red
-        acc = frozenset(e for e in out if _expr_has(e, 'top') and 'recursion' in top_reasons(frozenset([e])))
+            avs.append(av)
+        if not avs:
+            return top('local defined only through itself ' + show(t))
+        if any(is_tuple(a) for a in avs):
+            n = max(len(a[1]) for a in avs if is_tuple(a))
+            comps = []
+            for i in range(n):
+                c = frozenset()
+                for a in avs:
+                    if is_tuple(a) and i < len(a[1]):
+                        x = a[1][i]
+                        c = c | (flat(x) if not is_tuple(x) else top('nested tuple'))
+                    else:
+                        c = c | top('tuple/non-tuple join')
+                comps.append(self._accumulate(c))
+            return ('tuple', tuple(comps))
+        out = frozenset()
+        for a in avs:
+            out |= a
+        return self._accumulate(out)
+
+    def _accumulate(self, out):
+        """x = x op e  ->  reduction: alternatives that refer to the local itself (recursion) become `acc`"""
+        acc = frozenset(e for e in out if _expr_has(e, 'top') and top_reasons(frozenset([e])) == {'recursion'})
         if acc:
             rest = out - acc
             return frozenset([('red', 'acc', rest | frozenset(strip_rec(e) for e in acc))])
